@@ -21,6 +21,11 @@ Theorem C11_one_critical_section_per_call :
   one_section_per_call lock_table_v1 = true /\ one_section_per_call lock_table_v2 = true.
 Proof. exact clients_one_section_per_call. Qed.
 
+(* the same discipline for the registry of native expressions, which has a lock of its own (fix 46de73f): its maps are only
+   touched under that lock and the lock is never taken twice on one call path *)
+Theorem C11_native_registry_follows_the_lock_discipline : well_locked lock_table_native = true.
+Proof. exact native_registry_well_locked. Qed.
+
 (* under the mutex semantics, the accesses of any concurrent execution are ordered as a serial execution of whole
    critical sections (each data operation is one critical section) *)
 Theorem C11_mutex_serializes :
